@@ -26,6 +26,8 @@ Definition USINT_encode := uint_encode 1.
 Definition UINT_encode := uint_encode 2.
 Definition UDINT_encode := uint_encode 4.
 
+Definition len (bs : list Z) : Z := Z.of_nat (List.length bs).
+
 Fixpoint assoc_text (k : text) (t : list (text * Z)) : option Z :=
   match t with
   | [] => None
@@ -36,8 +38,6 @@ Fixpoint assoc_z (k : Z) (t : list (Z * Z)) : option Z :=
   | [] => None
   | (k', v) :: r => if k' =? k then Some v else assoc_z k r
   end.
-
-Definition len (bs : list Z) : Z := Z.of_nat (List.length bs).
 
 (* str.encode() (UTF-8); surrogates / out-of-range code points raise (UnicodeEncodeError) *)
 Definition utf8_char (c : Z) : option (list Z) :=
@@ -59,9 +59,12 @@ Fixpoint utf8_encode (s : text) : res bytes :=
               end
   end.
 
-(* int(str): surrounding ASCII whitespace, optional sign, digits with single underscores between
-   digits (ASCII semantics; non-ASCII digits / spaces are outside the model) *)
-Definition is_ws (c : Z) : bool := ((9 <=? c) && (c <=? 13)) || ((28 <=? c) && (c <=? 32)).
+(* int(str) on ASCII text: surrounding whitespace (bytes 9-13 and 32: Py_ISSPACE; the separators
+   28-31 are NOT accepted in an ASCII string), optional sign, digits with single underscores between
+   digits; more than sys.int_max_str_digits = 4300 digits (leading zeros included) -> ValueError.
+   Non-ASCII digits / spaces are outside the model. *)
+Definition int_max_str_digits : Z := 4300.
+Definition is_ws (c : Z) : bool := ((9 <=? c) && (c <=? 13)) || (c =? 32).
 Fixpoint lstrip (s : text) : text :=
   match s with
   | c :: r => if is_ws c then lstrip r else s
@@ -75,12 +78,17 @@ Fixpoint digits_us (s : text) (acc : Z) (prev_digit : bool) : option Z :=
               else if (c =? 95) && prev_digit then digits_us r acc false
               else None
   end.
+Definition count_digits (s : text) : Z := len (filter is_ascii_digit s).
+Definition py_int_unsigned (r : text) : option Z :=
+  if count_digits r <=? int_max_str_digits then digits_us r 0 false else None.
 Definition py_int_full (s : text) : res Z :=
   let bad := Err (Foreign ValueError) in
   match strip s with
-  | 45 :: r => match digits_us r 0 false with Some z => Ok (- z) | None => bad end
-  | 43 :: r => match digits_us r 0 false with Some z => Ok z | None => bad end
-  | r => match digits_us r 0 false with Some z => Ok z | None => bad end
+  | [] => bad
+  | c :: r =>
+      if c =? 45 then match py_int_unsigned r with Some z => Ok (- z) | None => bad end
+      else if c =? 43 then match py_int_unsigned r with Some z => Ok z | None => bad end
+      else match py_int_unsigned (c :: r) with Some z => Ok z | None => bad end
   end.
 
 (* ipaddress.ip_address restricted to what can be an IPv4 address: exactly four '.'-separated
